@@ -79,7 +79,7 @@ def subject_source(sid, decl, cfg, derive_use="use ::enum_tools::EnumTools;", bo
                    sweep_full=True, prelude="", inner_attrs="", scope_items="", phases=None, m_external=None):
     """Rust text of one subject module `pub mod <sid>` exposing `pub static SUBJECT`."""
     b = dict(x1_depth=3, x2_extra=2, x2_cap=8, range_x1_depth=2, range_x2_extra=2,
-             range_pair_step=0, consumers=True)
+             range_pair_step=0, consumers=True, light=False)
     if bounds:
         b.update(bounds)
     R = decl.repr
@@ -155,6 +155,7 @@ def subject_source(sid, decl, cfg, derive_use="use ::enum_tools::EnumTools;", bo
     L.append("    x1_depth: %d, x2_extra: %d, x2_cap: %d, range_x1_depth: %d, range_x2_extra: %d, range_pair_step: %d, consumers: %s," % (
         b["x1_depth"], b["x2_extra"], b["x2_cap"], b["range_x1_depth"], b["range_x2_extra"],
         b["range_pair_step"], "true" if b["consumers"] else "false"))
+    L.append("    light: %s," % ("true" if b["light"] else "false"))
     L.append("    ..::driver::SUBJECT_DEFAULT")
     L.append("  };")
     L.append("}")
